@@ -436,30 +436,36 @@ def collectPlain : List (String × Span × Expr) → AList (Span × Expr) → Ou
 
 def stackFuel : Nat := 20000
 
-def validate (g : Grammar) (sh : Shell) : Outcome Valid :=
-  let calls : List (String × Span × Expr) := g.filterMap fun
+/-- the call variants: (command name, its span, expression) -/
+def callsOf (g : Grammar) : List (String × Span × Expr) :=
+  g.filterMap fun
     | .call n s e => some (n, s, e)
     | _ => none
-  if calls.isEmpty then .err .missingCallVariants [] else
-  let cmds := dedupNames (calls.map fun (n, s, _) => (n, s)) []
+
+def callNameSpans (g : Grammar) : List (String × Span) := (callsOf g).map fun x => (x.1, x.2.1)
+
+/-- the command-name checks of `from_grammar`: at least one call variant, one command name, no `/` -/
+def commandOf (g : Grammar) : Outcome String :=
+  if (callsOf g).isEmpty then .err .missingCallVariants [] else
+  let cmds := dedupNames (callNameSpans g) []
   if cmds.length > 1 then .err .varyingCommandNames (cmds.map (·.2)) else
   match cmds with
   | [] => .err .missingCallVariants []
   | (command, commandSpan) :: _ =>
-  if command.toList.contains '/' then .err .invalidCommandName [commandSpan] else
-  let expr : Expr := match calls with
-    | [(_, _, e)] => e
-    | _ => .alt (ExprL.ofList (calls.map (·.2.2))) ((calls.head?.map (·.2.2.span)).getD default)
-  match collectPlain (plainDefs g) [] with
-  | .err c s => .err c s
-  | .crash s => .crash s
-  | .ok defs =>
-  let defs := defs.map fun (n, s, e) => (n, s, distribute e)
-  let expr := distribute expr
-  match getSpecializations g sh with
-  | .err c s => .err c s
-  | .crash s => .crash s
-  | .ok (specs, fbs) =>
+  if command.toList.contains '/' then .err .invalidCommandName [commandSpan] else .ok command
+
+/-- the call variants joined into one expression -/
+def topExpr (g : Grammar) : Expr :=
+  match callsOf g with
+  | [(_, _, e)] => e
+  | calls => .alt (ExprL.ofList (calls.map (·.2.2))) ((calls.head?.map (·.2.2.span)).getD default)
+
+/-- everything after the definitions and specialisations have been collected: specialisation,
+dependency-ordered expansion, the spaces check, collapsing of words, `||` levels, warnings -/
+def finishValidate (g : Grammar) (sh : Shell) (command : String) (defs0 : AList (Span × Expr))
+    (specs : AList UserSpec) (fbs : AList String) : Outcome Valid :=
+  let defs := defs0.map fun (n, s, e) => (n, s, distribute e)
+  let expr := distribute (topExpr g)
   let book : Book := ⟨specs, defs.map fun (n, s, _) => (n, s)⟩
   let defined := defs.map (·.1)
   let (defs, book) := defs.foldl (init := (([] : AList (Span × Expr)), book)) fun (acc, b) (n, s, e) =>
@@ -485,5 +491,20 @@ def validate (g : Grammar) (sh : Shell) : Outcome Valid :=
   let expr := collapse expr
   let expr := propagate expr 0
   .ok { command, expr, undefined := refs expr, unused, unusedSpecs }
+
+/-- `ValidGrammar::from_grammar`, in the order the code runs its checks -/
+def validate (g : Grammar) (sh : Shell) : Outcome Valid :=
+  match commandOf g with
+  | .err c s => .err c s
+  | .crash s => .crash s
+  | .ok command =>
+  match collectPlain (plainDefs g) [] with
+  | .err c s => .err c s
+  | .crash s => .crash s
+  | .ok defs =>
+  match getSpecializations g sh with
+  | .err c s => .err c s
+  | .crash s => .crash s
+  | .ok (specs, fbs) => finishValidate g sh command defs specs fbs
 
 end Complgen.Check
